@@ -9,7 +9,8 @@ _m(
     "random field, cut-off 0.2-0.6 of Nyquist per axis | random-phase field with a mirror-symmetric Gaussian power spectrum, "
     "correlation length 0.5-3 px | 1-3 periodic Gaussian blobs; pedestal 0/0.5/2) x applied circular translation s anywhere "
     "in [0,h)x[0,w) (identical images | integers | reals with fractional parts incl. 0.5, 0.49, 0.01, 0.99; one axis may stay "
-    "integer) and, for numpy, fft_input x return_shifted_image x fft_output x max_shift (None | |s_centred| + {2.5,4,16,1000}).  "
+    "integer) and, for numpy, fft_input x return_shifted_image x fft_output x max_shift (None | |s_centred| + {2.5,4,16,1000}; "
+    "for integer shifts also + {0.25,0.5,1,1.5}).  "
     "The moving image is T_s(ref) from the harness's own float64 Fourier translation (np.roll for integers).  A case is "
     "NON-TRIVIAL when the shift is non-integer with upsample_factor >= 2 and inside the sub-pixel domain guards, or some "
     "component of s exceeds half the image size, or the image is not square; distinct = SHA-1 of the canonical JSON of the case.",
@@ -25,8 +26,9 @@ _m(
         "centred-cell range are asserted.  Clean-tree maximum inside the domain: 0.2/up",
         "float32 torch inputs carry no pedestal (a pedestal of 2 on unit contrast costs ~2 upsampled px at up=64 in float32: "
         "rounding, not a convention error)",
-        "max_shift leaves >= 2.5 px between the true shift and the disc edge so that neither the peak pixel nor its "
-        "parabola neighbours are masked; smaller margins are not examined",
+        "max_shift: for sub-pixel shifts the disc edge stays >= 2.5 px beyond the true shift (closer, the pixel nearest to "
+        "the true peak can itself be excluded and the two-stage guards above no longer describe the input); for integer "
+        "shifts the peak pixel is the shift itself and margins down to 0.25 px are in the domain",
         "align_images_fourier_torch reports an unwrapped position on the correlation grid: compared modulo the cell, no range "
         "assertion",
         "image tolerances follow from the shift tolerance: tol*(sum|k_y F|+sum|k_x F|) (triangle-inequality gradient bound) "
